@@ -17,6 +17,7 @@ type Clause struct {
 }
 
 type Contract struct {
+	Allows        []string // `allow <rule>`: closed-world rules that name this function as a permitted place
 	Owns          []string // `owns Type.field ...`: fields this (goroutine) body may touch without the mutex (protocol-owned)
 	NoLockExit    bool     // do not generate the automatic lock-balance assertion at returns
 	Locked        bool     // `locked`: the function is entered (and left) with the UI mutex held
@@ -318,6 +319,14 @@ func (cs *ContractSet) loadFile(path, repo string) {
 			flush()
 			if cur != nil {
 				cur.NoLockExit = true
+			}
+		case "allow":
+			// `allow <rule>`: this function is one of the places the closed-world rule <rule> permits (the rule
+			// itself lives in the property's configuration; the permission travels with the function's contract,
+			// so a rename keeps it)
+			flush()
+			if cur != nil {
+				cur.Allows = append(cur.Allows, strings.Fields(rest)...)
 			}
 		case "boxinv":
 			flush()
